@@ -701,7 +701,7 @@ func main() {
 		ID:        "C08",
 		Title:     "Decoding always yields a value of the specification's implied type",
 		Technique: "bounded exhaustive enumeration of (spec tree, body) pairs on the real hcldec; type-conformance invariant + agreement with a reference decoder over the abstract body",
-		Rule: "spec trees: quick = every tree of depth <= 2 over the rich alphabet (AttrSpec x 7 types x required, LiteralSpec, ExprSpec, BlockAttrsSpec x 3 element types x required, BlockLabelSpec 0..1, BlockSpec x required, BlockList/SetSpec x 4 Min/Max, BlockTupleSpec x 2, BlockMap/BlockObjectSpec x 1..2 labels, DefaultSpec (literal and attribute default of equal implied type), TransformExpr/TransformFuncSpec x {wrap,isnull}, RefineValueSpec x {noop,notnull}, ValidateSpec x {ok,warn,rejectnull}, ObjectSpec/TupleSpec of 1..2 children) + every tree of depth 3 over the reduced alphabet; thorough = depth <= 3 rich + depth 4 tiny (gen/specgen/enum.go); preconditions respected (consecutive label indices, no dynamic types under BlockMapSpec, equal implied types and non-block default in DefaultSpec, total transform functions, refinements that hold); " +
+		Rule: "spec trees: quick = every tree of depth <= 2 over the rich alphabet (AttrSpec x 8 types (string, number, bool, list(string), map(number), object with an optional attribute, list of such objects, dynamic) x required, LiteralSpec, ExprSpec, BlockAttrsSpec x 3 element types x required, BlockLabelSpec 0..1, BlockSpec x required, BlockList/SetSpec x 4 Min/Max, BlockTupleSpec x 2, BlockMap/BlockObjectSpec x 1..2 labels, DefaultSpec (literal and attribute default of equal implied type), TransformExpr/TransformFuncSpec x {wrap: v -> [v], isnull: v -> bool, strlen: string -> number (over string-typed wrapped specs)}, RefineValueSpec x {noop,notnull}, ValidateSpec x {ok,warn,rejectnull}, ObjectSpec/TupleSpec of 1..2 children) + every tree of depth 3 over the reduced alphabet; thorough = depth <= 3 rich + depth 4 tiny (gen/specgen/enum.go); preconditions respected (consecutive label indices, no dynamic types under BlockMapSpec, equal implied types and non-block default in DefaultSpec, total transform functions, refinements that hold); " +
 			"bodies per spec (gen/specgen/bodies.go): product of {absent, 2 conforming values} per attribute and every block count 0..3 per block type with representative contents, plus every body within k edits (k=1 quick, 2 thorough) of the min/full0/full1/mix base bodies (mix = blocks of one type with different contents) (remove attr, replace value by each of 8 pool values incl. null, unknown, dynamic and wrongly typed literals, extra attr, extra block type, remove block, duplicate block, add label, drop label; at every nesting level). " +
 			"distinct = distinct (spec, decoded value or error type)",
 		Assumptions: []string{
